@@ -144,6 +144,20 @@ class C02(Check):
                     self.violation({"theorem_or_stream": "process: prerequisite order", "input": {"counts": counts}, "observed": obs,
                                     "why": "procedure %d attempted for UE %d before its prerequisite %d" % (code, i, need)})
                 done.add((code, i))
+            # what the emulator says it did, the network must have seen: a deregistered UE is gone at the AMF, a UE with an
+            # established session has one there
+            w = len(cfg["imsi"])
+            by_supi = {u.supi: u for u in r["amf"].ues.values()}
+            for code, i in obs:
+                u = by_supi.get("%0*d" % (w, int(cfg["imsi"]) + i))
+                if code == 5 and (u is None or u.state != "gone"):
+                    self.violation({"theorem_or_stream": "process: lifecycle against the reference AMF", "input": {"counts": counts, "imsi": cfg["imsi"], "ue_index": i},
+                                    "observed": {"amf_side_state": getattr(u, "state", None), "amf_ue_ngap_id": getattr(u, "amf", None)},
+                                    "why": "the emulator ran the deregistration of this UE but the AMF never saw it complete"})
+                if code == 2 and (u is None or not hasattr(u, "ip")):
+                    self.violation({"theorem_or_stream": "process: lifecycle against the reference AMF", "input": {"counts": counts, "imsi": cfg["imsi"], "ue_index": i},
+                                    "observed": {"amf_side_state": getattr(u, "state", None), "amf_ue_ngap_id": getattr(u, "amf", None)},
+                                    "why": "the emulator ran the session establishment of this UE but the SMF never assigned a session"})
             # 3. reported session data = assigned
             reported = {}
             for m in re.finditer(r"VERIF-SESSION imsi-(\d+) (\S+) (\d+) (\S+)", r["stdout"]):
